@@ -20,3 +20,5 @@ func newC08Store() *Store {
 	mk(5, "__name__", "bar", "a", "x", "b", "1")
 	return NewStore(ss)
 }
+
+func labelsFromKV(kv []string) labels.Labels { return labels.FromStrings(kv...) }
